@@ -21,6 +21,13 @@ theorem rdsSim_of_pend {E : Env} {own : Own} (P : PendEnv E own) {trB : TxRecB} 
   rw [removeDoubleSpends_ops, ha.ins]
   exact ⟨h1, h2⟩
 
+theorem removeDoubleSpends_tr_on_bytes {E : Env} {own : Own} (P : PendEnv E own) {bs : BStore} (hC : CanonS E bs)
+    {ins : List OutPointB} (hw : ∀ o ∈ ins, o.WF = true) (tr : TxRec)
+    (hti : tr.tx.ins.map (fun i => (i.tx, i.idx)) = ins.map (nmOP E.N)) :
+    absStore E (removeDoubleSpendsB P ins bs) = removeDoubleSpends own (absStore E bs) tr ∧
+    CanonS E (removeDoubleSpendsB P ins bs) := by
+  rw [removeDoubleSpends_ops, hti]; exact removeDoubleSpends_on_bytes P hC hw
+
 /-- **AddRelevantTx (mined) on bytes**, every bucket access included: block record (create / append), tx record,
     updateMinedBalance, the tx's own pending version, removeDoubleSpends with the recursive removeConflict, AddCredits -/
 theorem addRelevantMined_full_on_bytes {E : Env} (p : Params) {own : Own} (P : PendEnv E own) {sb : SB} (hC : CanonS E sb.1)
